@@ -48,7 +48,13 @@ func symLabel() label {
 	n := vf.Param("llen", 2)
 	s := vf.Str(n)
 	for i := 0; i < n; i++ {
-		vf.Assume(s[i] >= 0x20 && s[i] < 0x7f)
+		if vf.Param("alpha", 0) == 1 {
+			// the characters that matter to label escape processing
+			c := s[i]
+			vf.Assume(c == 'a' || c == '$' || c == '%' || c == '{' || c == '"' || c == '\\' || c == ' ' || c == 'n')
+		} else {
+			vf.Assume(s[i] >= 0x20 && s[i] < 0x7f)
+		}
 	}
 	return label{text: s, quoted: true}
 }
@@ -262,11 +268,14 @@ func H_Structure() {
 			bomOn = true
 		case 9:
 			noFinalNL = true
+		case 10, 11: // CRLF together with a line-comment style
+			l.nl = "\r\n"
+			l.comments = v - 9
 		}
 	}
-	vary(pick(10))
+	vary(pick(12))
 	if vf.Param("pairs", 0) == 1 {
-		vary(pick(10))
+		vary(pick(12))
 	}
 	src := render(items, l, 0)
 	if bomOn {
